@@ -32,6 +32,8 @@ CLAIMS = {
          "convergence within the iteration budget and equivariance are measured (L2), not proved"),
  "C17": ("proof", "Window structure of decasteljau proved for ALL N, d, closed (no bound): rejection, no unsigned subtraction wraps, every window has d in-bounds indices, consecutive windows overlap by one, the number of windows is maximal ((N-1)/(d-1), fewer than d-1 points unused), the closed curve adds one wrapping window, the same number of points per window. The whole routine is tied bit-for-bit to the code on random trajectories of every group; the box N<=16, d<=N+1, k<=4, open/closed is enumerated exhaustively on the trajectory e_i of R^16, where each curve point reveals which inputs were read and with which Bernstein weights.",
          "that the last curve point equals the last control point on a group rests on X+(Y-X)=Y (C04), measured by the oracle"),
+ "C18": ("proof", "Over every ordered field: tangent isApprox reflexive (eps >= 0) and symmetric; against the zero tangent it is exactly the component-wise absolute test, so X.isApprox(Y, eps) <=> every component of X (-) Y is <= eps, hence true well below and false well above eps; Eigen's halving reduction proved equal to the plain sum. isApprox/== of every group and of tangents tied bit-for-bit to the code on pairs at controlled tangent distance {0, 0.01, 0.5, 0.999, 1.001, 2, 100} eps, q/-q pairs, coordinates up to 1e9; oracle checks reflexivity (all scales), symmetry, below/above at 60 digits.",
+         "floating-point reflexivity for large coordinates is rounding behaviour: measured (it exposed SE2::inverse, repaired)"),
 }
 
 checks = []
